@@ -3,7 +3,7 @@
    that are active at that character. *)
 From AS Require Import Base Effects.
 From AS.Model Require Import Sgr Table Render.
-From AS.Proofs Require Import TableProofs PadProofs.
+From AS.Proofs Require Import TableProofs PadProofs DecProofs GenCodeTable SgrProofs.
 From AS.Spec Require Import Terminal.
 From AS.Proofs Require Import SgrAlgebra.
 Local Open Scope nat_scope.
@@ -246,7 +246,7 @@ Proof.
 Qed.
 
 (* ====================================================================================== *)
-(* One iteration of the unoptimised loop                                                    *)
+(* One iteration of the loop: what render_point appends                                     *)
 (* ====================================================================================== *)
 Lemma render_point_unopt s rs st idx p cur :
   render_point s false rs st idx p cur =
@@ -261,29 +261,55 @@ Proof.
   cbn [andb]. destruct (negb (is_nil c)); reflexivity.
 Qed.
 
+(* the optimiser's choice between the difference and the full re-emission *)
+Definition opt_pick (old new : sdict) (codes0 : str) : bool * str :=
+  let opt := join [SEMI] (diff_codes old new) in
+  if is_nil opt then (false, codes0)
+  else if length opt <? length codes0 then (true, opt) else (true, codes0).
+Definition rs_wrap (idx : nat) (rs : bool) (ac : bool * str) : bool * str :=
+  if Nat.eqb idx 0 && rs
+  then (if fst ac && negb (is_nil (snd ac)) then (true, CH_0 :: SEMI :: snd ac) else (true, [CH_0]))
+  else ac.
+
+Lemma pick_wrap_eq {A} (F : bool -> str -> A) idx rs (o c : str) :
+  (let '(ap, co) := if is_nil o then (false, c) else if length o <? length c then (true, o) else (true, c) in
+   let '(ap2, co2) := if Nat.eqb idx 0 && rs
+                      then (if ap && negb (is_nil co) then (true, CH_0 :: SEMI :: co) else (true, [CH_0]))
+                      else (ap, co) in
+   F ap2 co2)
+  = let ac := rs_wrap idx rs (if is_nil o then (false, c)
+                              else if length o <? length c then (true, o) else (true, c)) in
+    F (fst ac) (snd ac).
+Proof.
+  unfold rs_wrap. destruct (is_nil o); [|destruct (length o <? length c)];
+    destruct (Nat.eqb idx 0 && rs); cbn [fst snd andb]; try reflexivity;
+    destruct (negb (is_nil _)); reflexivity.
+Qed.
+
+Lemma render_point_opt s rs st idx p cur :
+  render_point s true rs st idx p cur =
+  let nd := s2d (fun x => x) (map stxt cur) [] in
+  let ac := rs_wrap idx rs (opt_pick (r_dict st) nd (pt_codes p cur)) in
+  {| r_out := r_out st
+              ++ (if r_first st && (0 <? idx) && rs then [OSgr []] else [])
+              ++ (if is_nil (str_slice s (r_last st) idx) then [] else [OText (str_slice s (r_last st) idx)])
+              ++ (if fst ac then [OSgr (snd ac)] else []);
+     r_last := idx; r_dict := nd; r_exist := negb (is_nil cur); r_first := false |}.
+Proof.
+  unfold render_point, opt_pick, pt_codes. cbv zeta.
+  exact (pick_wrap_eq
+           (fun ap2 co2 =>
+              {| r_out := r_out st
+                          ++ (if r_first st && (0 <? idx) && rs then [OSgr []] else [])
+                          ++ (if is_nil (str_slice s (r_last st) idx) then []
+                              else [OText (str_slice s (r_last st) idx)])
+                          ++ (if ap2 then [OSgr co2] else []);
+                 r_last := idx; r_dict := s2d (fun x => x) (map stxt cur) [];
+                 r_exist := negb (is_nil cur); r_first := false |}) idx rs _ _).
+Qed.
+
 Lemma tok_run_opt_text t x r : tok_run t ((if is_nil x then [] else [OText x]) ++ r) = tok_run t (OText x :: r).
 Proof. destruct x; cbn [is_nil app tok_run map]; destruct (tok_run t r); reflexivity. Qed.
-
-(* styles shown on a displayed chunk that starts at character offset off *)
-Definition disp_ok (tb : fmts) (off : nat) (disp : list (char * tstate)) : Prop :=
-  forall i c st, nth_error disp i = Some (c, st) -> teq st (sty (active_at tb (off + i))).
-
-Lemma disp_ok_app tb d1 d2 : disp_ok tb 0 d1 -> disp_ok tb (length d1) d2 -> disp_ok tb 0 (d1 ++ d2).
-Proof.
-  intros H1 H2 i c st Hn. destruct (Nat.lt_ge_cases i (length d1)) as [Hl|Hl].
-  - rewrite nth_error_app1 in Hn by exact Hl. eapply H1; eauto.
-  - rewrite nth_error_app2 in Hn by exact Hl. apply H2 in Hn.
-    replace (0 + i) with (length d1 + (i - length d1)) by lia. exact Hn.
-Qed.
-
-Lemma disp_ok_chunk tb off t text :
-  (forall j, j < length text -> teq t (sty (active_at tb (off + j)))) ->
-  disp_ok tb off (map (fun c => (c, t)) text).
-Proof.
-  intros H i c st Hn. assert (Hi : i < length text).
-  { rewrite <- (map_length (fun c => (c, t)) text). apply nth_error_Some. congruence. }
-  rewrite nth_error_map in Hn. destruct (nth_error text i); [|discriminate]. inversion Hn; subst. now apply H.
-Qed.
 
 Lemma map_fst_chunk (t : tstate) (text : str) : map fst (map (fun c => (c, t)) text) = text.
 Proof. rewrite map_map. cbn [fst]. apply map_id. Qed.
@@ -299,16 +325,93 @@ Qed.
 Lemma str_slice_len (s : str) a b : length (str_slice s a b) <= b - a.
 Proof. unfold str_slice. rewrite firstn_length. lia. Qed.
 
-Section Loop.
+Lemma ssorted_app_lt a : forall b, ssorted (a ++ b) -> forall x y, In x a -> In y b -> fst x < fst y.
+Proof.
+  induction a as [|[k p] a IH]; intros b H x y Hx Hy; [destruct Hx|]. cbn [app] in H.
+  inversion H as [|? ? ? Hk Hs]; subst. destruct Hx as [<-|Hx].
+  - cbn [fst]. apply Hk. apply in_or_app. now right.
+  - eapply IH; eauto.
+Qed.
+
+(* ====================================================================================== *)
+(* The loop invariant, generic in the renderer variant and in the relation on states        *)
+(* (teq for the unoptimised renderer, teq_disp for the optimised one)                       *)
+(* ====================================================================================== *)
+Section Generic.
+Variable R : tstate -> tstate -> Prop.
+Hypothesis HR : rel_ok R.
+
+(* styles shown on a displayed chunk that starts at character offset off *)
+Definition disp_ok (tb : fmts) (off : nat) (disp : list (char * tstate)) : Prop :=
+  forall i c st, nth_error disp i = Some (c, st) -> R st (sty (active_at tb (off + i))).
+
+Lemma disp_ok_app tb d1 d2 : disp_ok tb 0 d1 -> disp_ok tb (length d1) d2 -> disp_ok tb 0 (d1 ++ d2).
+Proof.
+  intros H1 H2 i c st Hn. destruct (Nat.lt_ge_cases i (length d1)) as [Hl|Hl].
+  - rewrite nth_error_app1 in Hn by exact Hl. eapply H1; eauto.
+  - rewrite nth_error_app2 in Hn by exact Hl. apply H2 in Hn.
+    replace (0 + i) with (length d1 + (i - length d1)) by lia. exact Hn.
+Qed.
+
+Lemma disp_ok_chunk tb off t text :
+  (forall j, j < length text -> R t (sty (active_at tb (off + j)))) ->
+  disp_ok tb off (map (fun c => (c, t)) text).
+Proof.
+  intros H i c st Hn. assert (Hi : i < length text).
+  { rewrite <- (map_length (fun c => (c, t)) text). apply nth_error_Some. congruence. }
+  rewrite nth_error_map in Hn. destruct (nth_error text i); [|discriminate]. inversion Hn; subst. now apply H.
+Qed.
+
+Lemma disp_ok_styles tb disp n : length disp = n -> disp_ok tb 0 disp ->
+  forall i, i < n -> exists st, nth_error (map snd disp) i = Some st
+                                /\ R st (style_of (map stxt (active_at tb i))).
+Proof.
+  intros Hl Hd i Hi. destruct (nth_error disp i) as [[c st]|] eqn:En.
+  - exists st. split. { rewrite nth_error_map, En. reflexivity. } exact (Hd i c st En).
+  - apply nth_error_None in En. lia.
+Qed.
+
+Lemma sgr_move_R t t' c : R t t' -> R (sgr_move t c) (sgr_move t' c).
+Proof. intros H. unfold sgr_move. destruct (params_of c); auto. now apply (R_sgr R HR). Qed.
+
+(* the state after the full re-emission is the style of the new active list *)
+Lemma pt_codes_style_R t act p : set_wf act -> set_wf (padd p) ->
+  R t (sty act) \/ R t tdefault ->
+  R (sgr_move t (pt_codes p (step act p))) (sty (step act p)).
+Proof.
+  intros Ha Hp [Ht|Ht].
+  - eapply (R_trans R HR); [apply sgr_move_R; exact Ht|]. apply (R_teq R HR).
+    apply pt_codes_style; auto. left. apply teq_refl.
+  - eapply (R_trans R HR); [apply sgr_move_R; exact Ht|]. apply (R_teq R HR).
+    apply pt_codes_style; auto. right. apply teq_refl.
+Qed.
+
+(* the early exit: no table, no reset_start *)
+Lemma display_early (s : str) (t : tstate) :
+  exists disp tfin,
+    tok_run t (if is_nil s then [] else [OText s]) = (disp, tfin)
+    /\ map fst disp = s
+    /\ (forall i, i < length s -> exists st, nth_error (map snd disp) i = Some st /\ R st t)
+    /\ R tfin t.
+Proof.
+  exists (map (fun c => (c, t)) s), t. split.
+  { rewrite <- (app_nil_r (if is_nil s then [] else [OText s])).
+    rewrite tok_run_opt_text. cbn [tok_run]. now rewrite app_nil_r. }
+  split. { apply map_fst_chunk. }
+  split. 2:{ apply (R_refl R HR). }
+  intros i Hi. destruct (nth_error s i) as [c|] eqn:En.
+  - exists t. split; [|apply (R_refl R HR)]. rewrite map_map. cbn [snd]. rewrite nth_error_map, En. reflexivity.
+  - apply nth_error_None in En. lia.
+Qed.
 Variable s : str.
 Variable tb : fmts.
 Variable t0 : tstate.
 Variable rs : bool.
+Variable opt : bool.
 Hypothesis Hsorted : ssorted tb.
-Hypothesis Hwf : adds_wf tb.
 Hypothesis Ht0 : rs = false -> t0 = tdefault.
 
-(* the loop invariant: `done` are the points processed so far, `rest` the others *)
+(* `done` are the points processed so far, `rest` the others *)
 Definition Inv (done rest : fmts) (st : rstate) : Prop :=
   exists disp t,
     tok_run t0 (r_out st) = (disp, t)
@@ -317,41 +420,43 @@ Definition Inv (done rest : fmts) (st : rstate) : Prop :=
     /\ r_last st <= length s
     /\ (forall kp, In kp done -> fst kp <= r_last st)
     /\ (forall kp, In kp rest -> r_last st <= fst kp)
-    /\ (r_first st = false -> teq t (sty (trun [] done)) /\ r_exist st = negb (is_nil (trun [] done)))
-    /\ (r_first st = true -> done = [] /\ r_out st = [] /\ r_last st = 0 /\ r_exist st = false).
+    /\ (r_first st = false -> R t (sty (trun [] done)) /\ r_exist st = negb (is_nil (trun [] done)))
+    /\ (r_first st = true -> done = [] /\ r_out st = [] /\ r_last st = 0 /\ r_exist st = false)
+    /\ (opt = true -> r_dict st = s2d (fun x => x) (map stxt (trun [] done)) []).
 
-Lemma trun_wf done rest : tb = done ++ rest -> set_wf (trun [] done).
-Proof.
-  intros E x Hx. apply in_trun in Hx as [[]|Hx]. apply Hwf. rewrite E, all_adds_app. apply in_or_app. now left.
-Qed.
-
-Lemma Inv_point done k p rest st : tb = done ++ (k, p) :: rest -> k < length s ->
+(* one iteration, given what the point's own sequence `sg` does to the terminal *)
+Lemma Inv_step done k p rest st st' sg :
+  tb = done ++ (k, p) :: rest -> k < length s ->
   Inv done ((k, p) :: rest) st ->
-  Inv (done ++ [(k, p)]) rest (render_point s false rs st k p (step (trun [] done) p)).
+  r_out st' = r_out st ++ (if r_first st && (0 <? k) && rs then [OSgr []] else [])
+              ++ (if is_nil (str_slice s (r_last st) k) then [] else [OText (str_slice s (r_last st) k)])
+              ++ sg ->
+  r_last st' = k -> r_first st' = false -> r_exist st' = negb (is_nil (step (trun [] done) p)) ->
+  (opt = true -> r_dict st' = s2d (fun x => x) (map stxt (step (trun [] done) p)) []) ->
+  (forall t1, R t1 (sty (trun [] done)) \/ (k = 0 /\ rs = true) ->
+     exists t2, tok_run t1 sg = ([], t2) /\ R t2 (sty (step (trun [] done) p))) ->
+  Inv (done ++ [(k, p)]) rest st'.
 Proof.
-  intros E Hk (disp & t & Hrun & Hfst & Hdisp & Hlast & Hdone & Hrest & Hnf & Hf).
+  intros E Hk (disp & t & Hrun & Hfst & Hdisp & Hlast & Hdone & Hrest & Hnf & Hf & Hdict)
+         Hout Hl' Hf' He' Hd' Hsg.
   assert (Hs' : ssorted (done ++ (k, p) :: rest)) by (rewrite <- E; exact Hsorted).
   assert (Hgt : forall kp, In kp rest -> k < fst kp).
   { apply ssorted_app_r in Hs'. inversion Hs'; subst; auto. }
   assert (Hlk : r_last st <= k) by (apply (Hrest (k, p)); now left).
-  assert (Hact : set_wf (trun [] done)) by (eapply trun_wf; eauto).
-  assert (Hpadd : set_wf (padd p)).
-  { intros x Hx. apply Hwf. rewrite E, all_adds_app. apply in_or_app. right.
-    unfold all_adds. cbn [flat_map snd]. apply in_or_app. now left. }
   assert (Hlen : length disp = r_last st).
   { rewrite <- (map_length fst), Hfst, firstn_length. lia. }
-  rewrite render_point_unopt. set (act := trun [] done) in *. set (cur := step act p).
-  set (text := str_slice s (r_last st) k).
+  set (act := trun [] done) in *. set (cur := step act p) in *.
+  set (text := str_slice s (r_last st) k) in *.
   (* state after the optional leading reset *)
   set (t1 := if r_first st && (0 <? k) && rs then tdefault else t).
-  assert (Ht1 : teq t1 (sty act) \/ (k = 0 /\ rs = true)).
+  assert (Ht1 : R t1 (sty act) \/ (k = 0 /\ rs = true)).
   { unfold t1. destruct (r_first st) eqn:Ef.
     - destruct (Hf eq_refl) as (Hd & Ho & Hl & He). rewrite Ho in Hrun. cbn [tok_run] in Hrun.
       inversion Hrun; subst disp t. unfold act. rewrite Hd. cbn [TableProofs.run fold_left].
       change (sty []) with tdefault. cbn [andb].
       destruct rs eqn:Ers.
-      + destruct k as [|k']; [right; auto|]. left. cbn. apply teq_refl.
-      + rewrite andb_false_r. left. rewrite (Ht0 eq_refl). apply teq_refl.
+      + destruct k as [|k']; [right; auto|]. left. cbn. apply (R_refl R HR).
+      + rewrite andb_false_r. left. rewrite (Ht0 eq_refl). apply (R_refl R HR).
     - cbn [andb]. left. apply (Hnf eq_refl). }
   assert (Hpre : tok_run t0 (r_out st ++ (if r_first st && (0 <? k) && rs then [OSgr []] else []))
                  = (disp, t1)).
@@ -365,32 +470,27 @@ Proof.
     rewrite E. rewrite (active_at_between done ((k, p) :: rest)); auto.
     - intros kp Hin. specialize (Hdone kp Hin). lia.
     - intros kp [<-|Hin]; cbn [fst]; [lia|]. specialize (Hgt kp Hin). lia. }
-  (* the state after the point's sequence *)
-  set (t2 := sgr_move t1 (rs_codes k rs (pt_codes p cur))).
-  assert (Ht2 : teq t2 (sty cur)).
-  { unfold t2. destruct (Nat.eqb k 0 && rs) eqn:Ec.
-    - apply andb_true_iff in Ec as [Ek Er]. apply Nat.eqb_eq in Ek. subst k. rewrite Er.
-      assert (Hc : set_wf cur). { intros x Hx. apply in_step in Hx as [Hx|Hx]; auto. }
-      erewrite rs_codes_reset by (apply pt_codes_params; exact Hc).
-      apply pt_codes_style; auto. right. apply teq_refl.
-    - unfold rs_codes. rewrite Ec. destruct Ht1 as [Ht1|[Hk0 Hr]].
-      + apply pt_codes_style; auto.
-      + subst k. rewrite Hr in Ec. discriminate. }
-  exists (disp ++ map (fun c => (c, t1)) text), t2. cbn [r_out r_last r_first r_exist].
+  destruct (Hsg t1 Ht1) as (t2 & Hsg2 & Ht2).
+  exists (disp ++ map (fun c => (c, t1)) text), t2. rewrite Hout, Hl', Hf', He'.
   split.
-  { rewrite app_assoc, tok_run_app, Hpre, tok_run_opt_text. cbn [tok_run]. now rewrite app_nil_r. }
+  { rewrite app_assoc, tok_run_app, Hpre, tok_run_opt_text. cbn [tok_run]. rewrite Hsg2. now rewrite app_nil_r. }
   split. { rewrite map_app, map_fst_chunk, Hfst. symmetry. apply firstn_slice. exact Hlk. }
   split. { apply disp_ok_app; auto. now rewrite Hlen. }
   split. { lia. }
   split. { intros kp Hin. apply in_app_or in Hin as [Hin|[<-|[]]]; cbn [fst]; auto. specialize (Hdone kp Hin). lia. }
   split. { intros kp Hin. specialize (Hgt kp Hin). lia. }
   split. { intros _. rewrite trun_snoc. split; auto. }
-  discriminate.
+  split. { discriminate. }
+  intros Ho. rewrite trun_snoc. now apply Hd'.
 Qed.
+
+Hypothesis Hpoint : forall done k p rest st, tb = done ++ (k, p) :: rest -> k < length s ->
+  Inv done ((k, p) :: rest) st ->
+  Inv (done ++ [(k, p)]) rest (render_point s opt rs st k p (step (trun [] done) p)).
 
 Lemma Inv_loop : forall rest done st, tb = done ++ rest -> Inv done rest st ->
   exists done' rest', tb = done' ++ rest'
-    /\ Inv done' rest' (render_loop s false rs (iter_states rest (trun [] done)) st)
+    /\ Inv done' rest' (render_loop s opt rs (iter_states rest (trun [] done)) st)
     /\ (forall kp, In kp rest' -> length s <= fst kp).
 Proof.
   induction rest as [|[k p] rest IH]; intros done st E HI.
@@ -401,16 +501,14 @@ Proof.
       apply ssorted_app_r in Hs'. inversion Hs'; subst.
       intros kp [<-|Hin]; cbn [fst]; auto. specialize (H1 kp Hin). lia.
     + apply Nat.leb_gt in Ek.
-      pose proof (IH (done ++ [(k, p)]) (render_point s false rs st k p (step (trun [] done) p))) as IH'.
+      pose proof (IH (done ++ [(k, p)]) (render_point s opt rs st k p (step (trun [] done) p))) as IH'.
       rewrite trun_snoc in IH'. apply IH'. { rewrite <- app_assoc. exact E. }
-      apply Inv_point; auto.
+      apply Hpoint; auto.
 Qed.
-End Loop.
 
 (* after the loop: the optional reset, the tail of the text, the optional final reset *)
-Lemma Inv_final s tb t0 rs re done rest st :
-  ssorted tb -> (rs = false -> t0 = tdefault) -> tb = done ++ rest ->
-  Inv s tb t0 done rest st -> (forall kp, In kp rest -> length s <= fst kp) ->
+Lemma Inv_final re done rest st :
+  tb = done ++ rest -> Inv done rest st -> (forall kp, In kp rest -> length s <= fst kp) ->
   exists disp tfin,
     tok_run t0 (r_out st
                 ++ (if r_first st && rs then [OSgr []] else [])
@@ -418,19 +516,19 @@ Lemma Inv_final s tb t0 rs re done rest st :
                 ++ (if r_exist st && re then [OSgr []] else [])) = (disp, tfin)
     /\ map fst disp = s
     /\ disp_ok tb 0 disp
-    /\ (re = true -> teq tfin tdefault).
+    /\ (re = true -> R tfin tdefault).
 Proof.
-  intros Hsorted Ht0 E (disp & t & Hrun & Hfst & Hdisp & Hlast & Hdone & Hrest & Hnf & Hf) Hbeyond.
+  intros E (disp & t & Hrun & Hfst & Hdisp & Hlast & Hdone & Hrest & Hnf & Hf & _) Hbeyond.
   assert (Hlen : length disp = r_last st).
   { rewrite <- (map_length fst), Hfst, firstn_length. lia. }
   set (act := trun [] done) in *.
   set (t1 := if r_first st && rs then tdefault else t).
-  assert (Ht1 : teq t1 (sty act)).
+  assert (Ht1 : R t1 (sty act)).
   { unfold t1. destruct (r_first st) eqn:Ef.
     - destruct (Hf eq_refl) as (Hd & Ho & Hl & He). rewrite Ho in Hrun. cbn [tok_run] in Hrun.
       inversion Hrun; subst disp t. unfold act. rewrite Hd. cbn [TableProofs.run fold_left].
-      change (sty []) with tdefault. cbn [andb]. destruct rs; [apply teq_refl|].
-      rewrite (Ht0 eq_refl). apply teq_refl.
+      change (sty []) with tdefault. cbn [andb]. destruct rs; [apply (R_refl R HR)|].
+      rewrite (Ht0 eq_refl). apply (R_refl R HR).
     - cbn [andb]. apply (Hnf eq_refl). }
   assert (Hnil : r_exist st = false -> act = []).
   { intros He. destruct (r_first st) eqn:Ef.
@@ -455,22 +553,78 @@ Proof.
     rewrite Hq. cbn [app]. now rewrite app_nil_r. }
   split. { rewrite map_app, map_fst_chunk, Hfst. apply firstn_skipn. }
   split. { apply disp_ok_app; auto. now rewrite Hlen. }
-  intros Hre. unfold tfin. rewrite Hre, andb_true_r. destruct (r_exist st) eqn:Ee; [apply teq_refl|].
+  intros Hre. unfold tfin. rewrite Hre, andb_true_r. destruct (r_exist st) eqn:Ee; [apply (R_refl R HR)|].
   rewrite (Hnil eq_refl) in Ht1. exact Ht1.
 Qed.
 
-Lemma disp_ok_styles tb disp n : length disp = n -> disp_ok tb 0 disp ->
-  forall i, i < n -> exists st, nth_error (map snd disp) i = Some st
-                                /\ teq st (style_of (map stxt (active_at tb i))).
+Definition rinit : rstate := {| r_out := []; r_last := 0; r_dict := []; r_exist := false; r_first := true |}.
+
+(* the whole main path of to_str *)
+Theorem display_generic re :
+  let st := render_loop s opt rs (iter_states tb []) rinit in
+  exists disp tfin,
+    tok_run t0 (r_out st
+                ++ (if r_first st && rs then [OSgr []] else [])
+                ++ (if is_nil (skipn (r_last st) s) then [] else [OText (skipn (r_last st) s)])
+                ++ (if r_exist st && re then [OSgr []] else [])) = (disp, tfin)
+    /\ map fst disp = s
+    /\ (forall i, i < length s -> exists st, nth_error (map snd disp) i = Some st /\
+          R st (style_of (map stxt (active_at tb i))))
+    /\ (re = true -> R tfin tdefault).
 Proof.
-  intros Hl Hd i Hi. destruct (nth_error disp i) as [[c st]|] eqn:En.
-  - exists st. split. { rewrite nth_error_map, En. reflexivity. } exact (Hd i c st En).
-  - apply nth_error_None in En. lia.
+  intros st.
+  assert (HI : Inv [] tb rinit).
+  { exists [], t0. cbn [r_out r_last r_first r_exist r_dict rinit]. repeat split; auto; try discriminate.
+    - intros i c x Hn. destruct i; discriminate.
+    - lia.
+    - intros kp [].
+    - intros; lia. }
+  destruct (Inv_loop tb [] rinit eq_refl HI) as (done' & rest' & E & HI' & Hb).
+  change (trun [] []) with (@nil setting) in HI'. fold st in HI'.
+  destruct (Inv_final re done' rest' st E HI' Hb) as (disp & tfin & Hrun & Hfst & Hd & Hfin).
+  exists disp, tfin. split; [exact Hrun|]. split; [exact Hfst|]. split; [|exact Hfin].
+  apply disp_ok_styles; auto. rewrite <- (map_length fst), Hfst. reflexivity.
 Qed.
+
+End Generic.
 
 (* ====================================================================================== *)
 (* Main theorem, unoptimised renderer                                                       *)
 (* ====================================================================================== *)
+Lemma trun_wf tb done rest : adds_wf tb -> tb = done ++ rest -> set_wf (trun [] done).
+Proof.
+  intros Hwf E x Hx. apply in_trun in Hx as [[]|Hx]. apply Hwf. rewrite E, all_adds_app. apply in_or_app. now left.
+Qed.
+Lemma padd_wf tb done k p rest : adds_wf tb -> tb = done ++ (k, p) :: rest -> set_wf (padd p).
+Proof.
+  intros Hwf E x Hx. apply Hwf. rewrite E, all_adds_app. apply in_or_app. right.
+  unfold all_adds. cbn [flat_map snd]. apply in_or_app. now left.
+Qed.
+
+Lemma Inv_point_unopt s tb t0 rs : ssorted tb -> adds_wf tb -> (rs = false -> t0 = tdefault) ->
+  forall done k p rest st, tb = done ++ (k, p) :: rest -> k < length s ->
+  Inv teq s tb t0 false done ((k, p) :: rest) st ->
+  Inv teq s tb t0 false (done ++ [(k, p)]) rest (render_point s false rs st k p (step (trun [] done) p)).
+Proof.
+  intros Hsorted Hwf Ht0 done k p rest st E Hk HI.
+  assert (Hact : set_wf (trun [] done)) by (eapply trun_wf; eauto).
+  assert (Hpadd : set_wf (padd p)) by (eapply padd_wf; eauto).
+  apply (Inv_step teq teq_rel_ok s tb t0 rs false Hsorted Ht0 done k p rest st
+                  (render_point s false rs st k p (step (trun [] done) p))
+                  [OSgr (rs_codes k rs (pt_codes p (step (trun [] done) p)))] E Hk HI);
+    try rewrite render_point_unopt; cbn [r_out r_last r_first r_exist r_dict]; try reflexivity; try discriminate.
+  intros t1 Ht1. eexists. split; [reflexivity|].
+  set (act := trun [] done) in *. set (cur := step act p).
+  destruct (Nat.eqb k 0 && rs) eqn:Ec.
+  - apply andb_true_iff in Ec as [Ek Er]. apply Nat.eqb_eq in Ek. subst k. rewrite Er.
+    assert (Hc : set_wf cur). { intros x Hx. apply in_step in Hx as [Hx|Hx]; auto. }
+    erewrite rs_codes_reset by (apply pt_codes_params; exact Hc).
+    apply pt_codes_style; auto. right. apply teq_refl.
+  - unfold rs_codes. rewrite Ec. destruct Ht1 as [Ht1|[Hk0 Hr]].
+    + apply pt_codes_style; auto.
+    + subst k. rewrite Hr in Ec. discriminate.
+Qed.
+
 Theorem render_unopt_display_strong : forall s rs re t0,
   ssorted (tbl s) -> adds_wf (tbl s) -> (rs = false -> t0 = tdefault) ->
   exists disp tfin,
@@ -484,28 +638,12 @@ Proof.
   destruct (is_nil (tbl s) && negb rs) eqn:E0.
   - apply andb_true_iff in E0 as [En Er]. apply negb_true_iff in Er.
     destruct (tbl s) as [|kp tb'] eqn:Etb; [|discriminate].
-    rewrite (Ht0 Er). exists (map (fun c => (c, tdefault)) (base s)), tdefault. split.
-    { rewrite <- (app_nil_r (if is_nil (base s) then [] else [OText (base s)])).
-      rewrite tok_run_opt_text. cbn [tok_run]. now rewrite app_nil_r. }
-    split. { apply map_fst_chunk. }
-    split. 2:{ intros _. apply teq_refl. }
-    apply disp_ok_styles. { now rewrite map_length. }
-    apply disp_ok_chunk. intros j _. apply teq_refl.
+    rewrite (Ht0 Er).
+    destruct (display_early teq teq_rel_ok (base s) tdefault) as (disp & tfin & H1 & H2 & H3 & H4).
+    exists disp, tfin. repeat split; auto.
   - cbn [andb].
-    set (init := {| r_out := []; r_last := 0; r_dict := []; r_exist := false; r_first := true |}).
-    assert (HI : Inv (base s) (tbl s) t0 [] (tbl s) init).
-    { exists [], t0. cbn [r_out r_last r_first r_exist init]. repeat split; auto; try discriminate.
-      - intros i c st Hn. destruct i; discriminate.
-      - lia.
-      - intros kp [].
-      - intros; lia. }
-    destruct (Inv_loop (base s) (tbl s) t0 rs Hs Hwf Ht0 (tbl s) [] init eq_refl HI)
-      as (done' & rest' & E & HI' & Hb).
-    change (trun [] []) with (@nil setting) in HI'.
-    destruct (Inv_final (base s) (tbl s) t0 rs re done' rest' _ Hs Ht0 E HI' Hb)
-      as (disp & tfin & Hrun & Hfst & Hd & Hfin).
-    exists disp, tfin. split; [exact Hrun|]. split; [exact Hfst|]. split; [|exact Hfin].
-    apply disp_ok_styles; auto. rewrite <- (map_length fst), Hfst. reflexivity.
+    exact (display_generic teq teq_rel_ok (base s) (tbl s) t0 rs false Hs Ht0
+             (Inv_point_unopt (base s) (tbl s) t0 rs Hs Hwf Ht0) re).
 Qed.
 
 (* the statement in the form that was asked for (its extra hypotheses are not needed) *)
@@ -607,10 +745,10 @@ Proof.
     + right. unfold all_adds. cbn [flat_map]. apply in_or_app. now right.
 Qed.
 
-Lemma render_loop_toks s opt rs
-  (Hpoint : forall st idx p cur, set_nonfinal cur -> Forall tok_ok (r_out st) ->
+Lemma render_loop_toks s opt rs (Q : list setting -> Prop)
+  (Hpoint : forall st idx p cur, Q cur -> Forall tok_ok (r_out st) ->
             Forall tok_ok (r_out (render_point s opt rs st idx p cur))) :
-  forall states st, (forall idx p cur, In (idx, p, cur) states -> set_nonfinal cur) ->
+  forall states st, (forall idx p cur, In (idx, p, cur) states -> Q cur) ->
   Forall tok_ok (r_out st) -> Forall tok_ok (r_out (render_loop s opt rs states st)).
 Proof.
   induction states as [|[[idx p] cur] states IH]; intros st Hc Ho; cbn [render_loop]; auto.
@@ -626,7 +764,7 @@ Proof.
   intros Hs Hn. unfold to_str_toks. destruct (is_nil (tbl s) && negb rs).
   - now apply tok_ok_opt_text.
   - cbn [andb]. apply Forall_app. split.
-    + apply render_loop_toks.
+    + apply (render_loop_toks _ _ _ set_nonfinal).
       * intros; now apply render_point_unopt_toks.
       * intros idx p cur Hin x Hx. destruct (iter_states_in _ _ _ _ _ x Hin Hx) as [[]|H]. now apply Hn.
       * constructor.
@@ -730,9 +868,730 @@ Example ex_s_rendered :
      = map (fun i => tstate_obs (style_of (map stxt (active_at (tbl ex_s) i)))) [0; 1; 2; 3].
 Proof. split; vm_compute; reflexivity. Qed.
 
+
+(* ====================================================================================== *)
+(* The optimised renderer                                                                   *)
+(* ====================================================================================== *)
+(* ---------- parsable texts ---------- *)
+Lemma split_char_nonnil c s : split_char c s <> [].
+Proof.
+  destruct s as [|x s]; cbn [split_char]; [discriminate|]. destruct (x =? c)%N; [discriminate|].
+  destruct (split_char c s); discriminate.
+Qed.
+
+Lemma split_digits t : forallb dsc t = true -> forallb all_digits (split_char SEMI t) = true.
+Proof.
+  induction t as [|x t IH]; [reflexivity|]. cbn [forallb split_char]. intros H.
+  apply andb_true_iff in H as [H1 H2]. specialize (IH H2). destruct (x =? SEMI)%N eqn:Ex.
+  - cbn [forallb all_digits]. exact IH.
+  - unfold dsc in H1. rewrite Ex, orb_false_r in H1.
+    destruct (split_char SEMI t) as [|h tl] eqn:Es; [exfalso; eapply split_char_nonnil; eauto|].
+    change (forallb all_digits (h :: tl)) with (forallb is_digit h && forallb all_digits tl) in IH.
+    change (forallb all_digits ((x :: h) :: tl)) with ((is_digit x && forallb is_digit h) && forallb all_digits tl).
+    apply andb_true_iff in IH as [Ha Hb]. now rewrite H1, Ha, Hb.
+Qed.
+
+Lemma parse_int_digits d : forallb is_digit d = true -> d <> [] -> parse_int d = Some (Z.of_N (num_of d)).
+Proof.
+  intros Hd Hne. unfold parse_int. rewrite (strip_ws_digits _ Hd).
+  destruct d as [|c r] eqn:E; [congruence|].
+  assert (Hc : is_digit c = true) by (simpl in Hd; now apply andb_true_iff in Hd as [? _]).
+  apply is_digit_spec in Hc.
+  replace (c =? CH_MINUS)%N with false by (symmetry; apply N.eqb_neq; unfold CH_MINUS; lia).
+  replace (c =? CH_PLUS)%N with false by (symmetry; apply N.eqb_neq; unfold CH_PLUS; lia).
+  rewrite (digits_val_digits (c :: r) 0%N Hd Hne false). reflexivity.
+Qed.
+
+Lemma all_codes_digits l : forallb all_digits l = true -> forall g,
+  all_codes (map (fun s => norm_item (IStr (strip_ws s))) l) = Some g ->
+  g = map num_of l /\ ok255 g = true /\ Forall (fun it => it <> []) l.
+Proof.
+  induction l as [|it l IH]; intros Hl g; cbn [map all_codes].
+  - intros H; inversion H; subst. repeat split; constructor.
+  - cbn [forallb] in Hl. apply andb_true_iff in Hl as [H1 H2]. unfold all_digits in H1.
+    rewrite (strip_ws_digits _ H1). destruct it as [|c it'].
+    + cbn. discriminate.
+    + unfold norm_item. rewrite (parse_int_digits (c :: it') H1) by discriminate.
+      rewrite item_code_N. destruct (num_of (c :: it') <=? 255)%N eqn:E; [|discriminate].
+      destruct (all_codes _) as [cs|] eqn:Ec; [|discriminate]. intros H; inversion H; subst.
+      destruct (IH H2 cs eq_refl) as (-> & Hk & Hn). repeat split.
+      * unfold ok255 in *. cbn [forallb]. now rewrite E, Hk.
+      * constructor; auto. discriminate.
+Qed.
+
+Lemma parsable_inv t : parsable t = true ->
+  exists v r, params_of t = Some (v :: r) /\ group_ok (v :: r) = true /\ ok255 (v :: r) = true
+              /\ initial_code t = (if is_param v then Some v else None) /\ t <> [].
+Proof.
+  unfold parsable. intros H. apply andb_true_iff in H as [H H3]. apply andb_true_iff in H as [H1 H2].
+  pose proof (split_digits t H2) as Hd. unfold to_list in H3.
+  destruct (all_codes _) as [g|] eqn:Ec; [|discriminate].
+  destruct (all_codes_digits _ Hd g Ec) as (Hg & Hk & Hne).
+  destruct g as [|v r]; [discriminate|]. exists v, r.
+  assert (Hp : params_of t = Some (v :: r)). { unfold params_of. now rewrite Hd, Hg. }
+  repeat split; auto.
+  - unfold initial_code. destruct (split_char SEMI t) as [|it l]; [discriminate|].
+    cbn [map] in Hg. inversion Hg; subst. inversion Hne; subst.
+    cbn [forallb] in Hd. apply andb_true_iff in Hd as [Hd1 _].
+    rewrite (parse_int_digits it Hd1) by assumption. rewrite N2Z.id.
+    replace (0 <=? Z.of_N (num_of it))%Z with true by (symmetry; apply Z.leb_le; lia). reflexivity.
+  - intros ->. cbn in Hp. inversion Hp; subst. cbn in H3. discriminate.
+Qed.
+
+(* the terminal's reading of one parsable group *)
+Lemma acts_group g : group_ok g = true -> ok255 g = true ->
+  acts spec_class g = [act_of_group g] /\ complete spec_class g = true.
+Proof.
+  unfold group_ok, act_of_group. destruct g as [|v [|x r]]; [discriminate| |].
+  - rewrite gen_class_spec. intros H _. unfold acts, complete. cbn [length acts_fuel next_act].
+    destruct (spec_class v); try discriminate; split; reflexivity.
+  - rewrite gen_class_spec. intros H Hk.
+    assert (Hx : (x = 5 \/ x = 2)%N).
+    { destruct x as [|p]; [discriminate|]. destruct p as [p|p|]; try discriminate;
+      destruct p as [p|p|]; try discriminate; try destruct p as [p|p|]; try discriminate; auto. }
+    destruct Hx as [-> | ->].
+    + destruct r as [|n [|? ?]]; try discriminate. destruct (spec_class v) eqn:Ec; try discriminate.
+      unfold acts, complete. cbn [length acts_fuel next_act]. rewrite Ec.
+      unfold ok255 in *. cbn [forallb] in *. apply andb_true_iff in Hk as [_ Hk]. apply andb_true_iff in Hk as [_ Hk].
+      rewrite Hk. split; reflexivity.
+    + destruct r as [|a [|b [|d [|? ?]]]]; try discriminate. destruct (spec_class v) eqn:Ec; try discriminate.
+      unfold acts, complete. cbn [length acts_fuel next_act]. rewrite Ec.
+      unfold ok255 in *. cbn [forallb] in *. apply andb_true_iff in Hk as [_ Hk]. apply andb_true_iff in Hk as [_ Hk].
+      rewrite Hk. split; reflexivity.
+Qed.
+
+(* ---------- settings_to_dict on parsable texts ---------- *)
+Definition txt_act (t : str) (a : act) : Prop :=
+  exists g, params_of t = Some g /\ acts spec_class g = [a] /\ complete spec_class g = true /\ t <> [].
+
+Definition entries_ok (d : dict str) : Prop :=
+  forall e v, In (e, v) d -> exists g, params_of v = Some g /\ txt_act v (ASet e g) /\ v <> [].
+
+Lemma in_dset {V} (d : dict V) e0 v0 e v : In (e, v) (dset d e0 v0) -> (e, v) = (e0, v0) \/ In (e, v) d.
+Proof.
+  induction d as [|[e' v'] r IH]; cbn [dset In].
+  - intros [H|[]]; auto.
+  - destruct (effect_beq e0 e'); cbn [In]; intros [H|H]; auto. destruct (IH H); auto.
+Qed.
+Lemma in_ddel {V} (d : dict V) e0 e v : In (e, v) (ddel d e0) -> In (e, v) d.
+Proof.
+  induction d as [|[e' v'] r IH]; cbn [ddel In]; auto.
+  destruct (effect_beq e0 e'); cbn [In]; intros; auto. destruct H; auto.
+Qed.
+
+Lemma s2d_step_parsable d t : parsable t = true -> nodupk d -> entries_ok d ->
+  exists a, txt_act t a
+    /\ teq (as_t (s2d_step (fun x => x) d t)) (apply_act (as_t d) a)
+    /\ nodupk (s2d_step (fun x => x) d t) /\ entries_ok (s2d_step (fun x => x) d t).
+Proof.
+  intros Hp Hd He. destruct (parsable_inv t Hp) as (v & r & Hpar & Hg & Hk & Hi & Hne).
+  destruct (acts_group _ Hg Hk) as [Ha Hc].
+  exists (act_of_group (v :: r)). split. { exists (v :: r). auto. }
+  unfold s2d_step. rewrite Hi. unfold act_of_group in *.
+  destruct (is_param v) eqn:Ep.
+  - destruct (gen_class v) eqn:Ecl; cbn [apply_act].
+    + split; [intros e; reflexivity|]. split; [constructor|]. intros e x [].
+    + split. { intros x. unfold as_t, tset. rewrite dget_dset. destruct (effect_beq e x); auto. }
+      split; [now apply nodup_dset|]. intros e' x Hin. apply in_dset in Hin as [Heq|Hin]; [|now apply He].
+      inversion Heq; subst. exists (v :: r). repeat split; auto. exists (v :: r). auto.
+    + split. { intros x. unfold as_t, tset. rewrite dget_ddel by exact Hd. destruct (effect_beq e x); auto. }
+      split; [now apply nodup_ddel|]. intros e' x Hin. apply in_ddel in Hin. now apply He.
+    + split. { intros x. unfold as_t, tset. rewrite dget_dset. destruct (effect_beq e x); auto. }
+      split; [now apply nodup_dset|]. intros e' x Hin. apply in_dset in Hin as [Heq|Hin]; [|now apply He].
+      inversion Heq; subst. exists (v :: r). repeat split; auto. exists (v :: r). auto.
+    + split; [intros e; reflexivity|]. split; auto.
+  - rewrite (gen_class_not_param v Ep). split; [intros e; reflexivity|]. split; auto.
+Qed.
+
+Lemma txt_act_codes t a l : txt_act t a ->
+  acts spec_class (codes_of_texts (t :: l)) = a :: acts spec_class (codes_of_texts l).
+Proof.
+  intros (g & Hp & Ha & Hc & _). rewrite codes_of_texts_cons, Hp. rewrite acts_app by exact Hc. now rewrite Ha.
+Qed.
+
+Lemma s2d_run texts : Forall (fun t => parsable t = true) texts -> forall d, nodupk d -> entries_ok d ->
+  teq (as_t (s2d (fun x => x) texts d)) (run (as_t d) (acts spec_class (codes_of_texts texts)))
+  /\ nodupk (s2d (fun x => x) texts d) /\ entries_ok (s2d (fun x => x) texts d).
+Proof.
+  induction 1 as [|t texts Ht Hts IH]; intros d Hd He.
+  - cbn. repeat split; auto. 
+  - unfold s2d. cbn [fold_left]. fold (s2d (fun x : str => x) texts (s2d_step (fun x => x) d t)).
+    destruct (s2d_step_parsable d t Ht Hd He) as (a & Hta & Hteq & Hd' & He').
+    destruct (IH _ Hd' He') as (IH1 & IH2 & IH3). repeat split; auto.
+    rewrite (txt_act_codes t a texts Hta). change (run (as_t d) (a :: acts spec_class (codes_of_texts texts)))
+      with (run (apply_act (as_t d) a) (acts spec_class (codes_of_texts texts))).
+    eapply teq_trans; [exact IH1|]. apply run_teq_l. exact Hteq.
+Qed.
+
+(* (a): the optimiser's dictionary of a list of parsable settings IS their style *)
+Theorem s2d_style texts : Forall (fun t => parsable t = true) texts ->
+  teq (as_t (s2d (fun x => x) texts [])) (style_of texts)
+  /\ nodupk (s2d (fun x => x) texts []) /\ entries_ok (s2d (fun x => x) texts []).
+Proof.
+  intros H. destruct (s2d_run texts H []) as (H1 & H2 & H3); [constructor|intros e v []|].
+  repeat split; auto.
+Qed.
+
+Lemma parsable_wf t : parsable t = true -> wf_setting t = true.
+Proof.
+  intros Hp. destruct (parsable_inv t Hp) as (v & r & Hpar & Hg & Hk & Hi & Hne).
+  destruct (acts_group _ Hg Hk) as [Ha Hc]. unfold wf_setting. rewrite Hpar, Hc.
+  destruct t; [congruence|reflexivity].
+Qed.
+
+(* ---------- (b): the optimiser's difference ---------- *)
+Definition clr_act (e : effect) : act := match e with FONT_TYPE => ASet FONT_TYPE [10%N] | _ => AClr e end.
+
+(* obligation on the GENERATED clear table: every effect has a clear code, and the specification
+   terminal reads it as clearing that effect (for FONT_TYPE: as selecting the primary font) *)
+Lemma clear_spec e : exists c, clear_code e = Some c /\ txt_act (decN c) (clr_act e).
+Proof.
+  destruct e; (eexists; split; [reflexivity|]); eexists; (split; [lazy; reflexivity|]);
+    (split; [lazy; reflexivity|]); (split; [lazy; reflexivity|]); lazy; discriminate.
+Qed.
+
+Definition set_act (kv : effect * str) : act :=
+  match params_of (snd kv) with Some g => ASet (fst kv) g | None => ANone end.
+Definition Acl (old new : sdict) : list act :=
+  flat_map (fun kv => match dget new (fst kv) with Some _ => [] | None => [clr_act (fst kv)] end) old.
+Definition Aset (old new : sdict) : list act :=
+  flat_map (fun kv => match dget old (fst kv) with
+                      | Some v => if str_eqb v (snd kv) then [] else [set_act kv]
+                      | None => [set_act kv] end) new.
+
+Lemma Forall2_flat_map {A B C} (R : B -> C -> Prop) (f : A -> list B) (g : A -> list C) l :
+  (forall x, In x l -> Forall2 R (f x) (g x)) -> Forall2 R (flat_map f l) (flat_map g l).
+Proof.
+  induction l as [|x l IH]; intros H; cbn [flat_map]; [constructor|].
+  apply Forall2_app. { apply H. now left. } apply IH. intros; apply H; now right.
+Qed.
+
+Lemma diff_txt_acts old new : entries_ok new -> Forall2 txt_act (diff_codes old new) (Acl old new ++ Aset old new).
+Proof.
+  intros He. unfold diff_codes, Acl, Aset. apply Forall2_app.
+  - apply Forall2_flat_map. intros [e v] _. cbn [fst]. destruct (dget new e); [constructor|].
+    destruct (clear_spec e) as (c & -> & Hc). constructor; [exact Hc|constructor].
+  - apply Forall2_flat_map. intros [e v] Hin. cbn [fst snd].
+    assert (Hs : Forall2 txt_act [v] [set_act (e, v)]).
+    { destruct (He e v Hin) as (g & Hp & Ht & _). unfold set_act. cbn [fst snd]. rewrite Hp. constructor; [exact Ht|constructor]. }
+    destruct (dget old e); auto. destruct (str_eqb s v); auto.
+Qed.
+
+Lemma acts_of_txt_acts l al : Forall2 txt_act l al ->
+  acts spec_class (codes_of_texts l) = al /\ Forall (fun t => params_of t <> None) l /\ Forall (fun t => t <> []) l.
+Proof.
+  induction 1 as [|t a l al Hta Hl IH]. { repeat split; constructor. }
+  destruct IH as (IH1 & IH2 & IH3). rewrite (txt_act_codes t a l Hta), IH1.
+  destruct Hta as (g & Hp & _ & _ & Hne). repeat split; constructor; auto. congruence.
+Qed.
+
+Lemma lw_flat_none {A} (f : A -> list act) x l :
+  (forall kv, In kv l -> last_write (f kv) x = None) -> last_write (flat_map f l) x = None.
+Proof.
+  induction l as [|k l IH]; intros H; cbn [flat_map]; [reflexivity|].
+  rewrite last_write_app, IH by (intros; apply H; now right). apply H. now left.
+Qed.
+
+Lemma lw_flat_cases {A} (f : A -> list act) x w l :
+  (forall kv, In kv l -> last_write (f kv) x = None \/ last_write (f kv) x = Some w) ->
+  last_write (flat_map f l) x = None \/ last_write (flat_map f l) x = Some w.
+Proof.
+  induction l as [|k l IH]; intros H; cbn [flat_map]; [now left|].
+  rewrite last_write_app. destruct IH as [-> | ->]; [intros; apply H; now right| |now right].
+  apply H. now left.
+Qed.
+
+Lemma lw_flat_some {A} (f : A -> list act) x w l kv : In kv l -> last_write (f kv) x = Some w ->
+  (forall kv', In kv' l -> last_write (f kv') x = None \/ last_write (f kv') x = Some w) ->
+  last_write (flat_map f l) x = Some w.
+Proof.
+  induction l as [|k l IH]; intros Hin Hkv H; [destruct Hin|]. cbn [flat_map]. rewrite last_write_app.
+  assert (Hl : forall kv', In kv' l -> last_write (f kv') x = None \/ last_write (f kv') x = Some w)
+    by (intros; apply H; now right).
+  destruct Hin as [->|Hin].
+  - destruct (lw_flat_cases f x w l Hl) as [-> | ->]; auto.
+  - now rewrite (IH Hin Hkv Hl).
+Qed.
+
+Lemma dget_in {V} (d : dict V) e v : dget d e = Some v -> In (e, v) d.
+Proof.
+  induction d as [|[e' v'] r IH]; cbn [dget]; [discriminate|]. destruct (effect_beq e' e) eqn:E.
+  - apply effect_beq_eq in E; subst. intros H; inversion H; subst. now left.
+  - intros H. right. now apply IH.
+Qed.
+Lemma dget_none_key {V} (d : dict V) x e v : dget d x = None -> In (e, v) d -> e <> x.
+Proof.
+  induction d as [|[e' v'] r IH]; cbn [dget]; [intros _ []|]. destruct (effect_beq e' x) eqn:E; [discriminate|].
+  intros H [Heq|Hin]; [|now apply IH]. inversion Heq; subst. now apply effect_beq_neq.
+Qed.
+Lemma nodupk_unique {V} (d : dict V) e v1 v2 : nodupk d -> In (e, v1) d -> In (e, v2) d -> v1 = v2.
+Proof.
+  unfold nodupk. induction d as [|[e' v'] r IH]; cbn [map fst]; intros Hn H1 H2; [destruct H1|].
+  inversion Hn as [|? ? Hni Hn']; subst. destruct H1 as [H1|H1], H2 as [H2|H2].
+  - congruence.
+  - inversion H1; subst. exfalso. apply Hni. apply in_map_iff. exists (e, v2). auto.
+  - inversion H2; subst. exfalso. apply Hni. apply in_map_iff. exists (e, v1). auto.
+  - now apply IH.
+Qed.
+
+Lemma lw_clr e x : last_write [clr_act e] x =
+  if effect_beq e x then Some (match x with FONT_TYPE => Some [10%N] | _ => None end) else None.
+Proof.
+  destruct (effect_beq e x) eqn:E.
+  - apply effect_beq_eq in E; subst. destruct x; reflexivity.
+  - destruct e; cbn [clr_act last_write]; rewrite E; reflexivity.
+Qed.
+Lemma lw_set kv x : last_write [set_act kv] x =
+  match params_of (snd kv) with Some g => if effect_beq (fst kv) x then Some (Some g) else None | None => None end.
+Proof. unfold set_act. destruct (params_of (snd kv)); reflexivity. Qed.
+
+Theorem diff_sound old new : nodupk new -> entries_ok new ->
+  teq_disp (sgr spec_class (as_t old) (codes_of_texts (diff_codes old new))) (as_t new).
+Proof.
+  intros Hn He x. unfold sgr.
+  rewrite (proj1 (acts_of_txt_acts _ _ (diff_txt_acts old new He))).
+  rewrite run_last, last_write_app. unfold Aset, Acl.
+  set (fs := fun kv : effect * str => match dget old (fst kv) with
+                      | Some v => if str_eqb v (snd kv) then [] else [set_act kv]
+                      | None => [set_act kv] end).
+  set (fc := fun kv : effect * str => match dget new (fst kv) with Some _ => [] | None => [clr_act (fst kv)] end).
+  destruct (dget new x) as [v|] eqn:Dn.
+  - (* x is set in the new dictionary *)
+    pose proof (dget_in _ _ _ Dn) as Hin. destruct (He x v Hin) as (g & Hp & _ & _).
+    assert (Hnew : as_t new x = Some g) by (unfold as_t; now rewrite Dn).
+    assert (Hothers : forall kv', In kv' new -> kv' <> (x, v) -> last_write (fs kv') x = None).
+    { intros [e' v'] Hin' Hne. unfold fs. cbn [fst snd].
+      assert (Hex : effect_beq e' x = false).
+      { destruct (effect_beq e' x) eqn:E; auto. apply effect_beq_eq in E; subst.
+        exfalso. apply Hne. f_equal. eapply nodupk_unique; eauto. }
+      assert (Hs : last_write [set_act (e', v')] x = None).
+      { rewrite lw_set. cbn [fst snd]. rewrite Hex. destruct (params_of v'); reflexivity. }
+      destruct (dget old e'); auto. destruct (str_eqb s v'); auto. }
+    assert (Hclr : last_write (flat_map fc old) x = None).
+    { apply lw_flat_none. intros [e' v'] Hin'. unfold fc. cbn [fst].
+      destruct (dget new e') eqn:D; [reflexivity|]. rewrite lw_clr.
+      destruct (effect_beq e' x) eqn:E; auto. apply effect_beq_eq in E; subst. congruence. }
+    rewrite Hclr, Hnew.
+    destruct (last_write (fs (x, v)) x) as [w|] eqn:Ew.
+    + (* the setting is emitted *)
+      assert (Hw : w = Some g).
+      { unfold fs in Ew. cbn [fst snd] in Ew.
+        assert (Hs : last_write [set_act (x, v)] x = Some (Some g)).
+        { rewrite lw_set. cbn [fst snd]. now rewrite Hp, effect_beq_refl. }
+        destruct (dget old x) as [s0|]; [destruct (str_eqb s0 v)|];
+          [discriminate Ew|rewrite Hs in Ew; congruence|rewrite Hs in Ew; congruence]. }
+      subst w. rewrite (lw_flat_some fs x (Some g) new (x, v) Hin Ew); [reflexivity|].
+      intros kv' Hin'. destruct (effect_beq (fst kv') x) eqn:E.
+      * right. destruct kv' as [e' v']. cbn [fst] in E. apply effect_beq_eq in E; subst.
+        rewrite (nodupk_unique new x v' v Hn Hin' Hin). exact Ew.
+      * left. apply Hothers; auto. intros ->. cbn [fst] in E. now rewrite effect_beq_refl in E.
+    + (* unchanged: not emitted, the old value stays *)
+      rewrite lw_flat_none.
+      2:{ intros kv' Hin'. destruct kv' as [e' v']. destruct (effect_beq e' x) eqn:E.
+          - apply effect_beq_eq in E; subst. rewrite (nodupk_unique new x v' v Hn Hin' Hin). exact Ew.
+          - apply Hothers; auto. intros Heq; inversion Heq; subst. now rewrite effect_beq_refl in E. }
+      unfold fs in Ew. cbn [fst snd] in Ew. unfold as_t.
+      assert (Hs : last_write [set_act (x, v)] x = Some (Some g)).
+      { rewrite lw_set. cbn [fst snd]. now rewrite Hp, effect_beq_refl. }
+      destruct (dget old x) as [v0|]; [|congruence].
+      destruct (str_eqb v0 v) eqn:Es; [|congruence]. apply str_eqb_eq in Es; subst. now rewrite Hp.
+  - (* x is not set in the new dictionary *)
+    assert (Hnew : as_t new x = None) by (unfold as_t; now rewrite Dn). rewrite Hnew.
+    rewrite lw_flat_none.
+    2:{ intros [e' v'] Hin'. pose proof (dget_none_key new x e' v' Dn Hin') as Hne. unfold fs. cbn [fst snd].
+        assert (Hs : last_write [set_act (e', v')] x = None).
+        { rewrite lw_set. cbn [fst snd]. destruct (effect_beq e' x) eqn:E.
+          - apply effect_beq_eq in E. congruence.
+          - destruct (params_of v'); reflexivity. }
+        destruct (dget old e'); auto. destruct (str_eqb s v'); auto. }
+    set (w := match x with FONT_TYPE => Some [10%N] | _ => @None (list N) end).
+    assert (Hcases : forall kv', In kv' old -> last_write (fc kv') x = None \/ last_write (fc kv') x = Some w).
+    { intros [e' v'] _. unfold fc. cbn [fst]. destruct (dget new e'); [now left|]. rewrite lw_clr.
+      destruct (effect_beq e' x); [now right|now left]. }
+    destruct (dget old x) as [v0|] eqn:Do.
+    + pose proof (dget_in _ _ _ Do) as Hin0.
+      rewrite (lw_flat_some fc x w old (x, v0) Hin0); auto.
+      * unfold w. destruct x; reflexivity.
+      * unfold fc. cbn [fst]. rewrite Dn, lw_clr, effect_beq_refl. reflexivity.
+    + rewrite lw_flat_none. { unfold as_t. now rewrite Do. }
+      intros [e' v'] Hin'. pose proof (dget_none_key old x e' v' Do Hin') as Hne. unfold fc. cbn [fst].
+      destruct (dget new e'); [reflexivity|]. rewrite lw_clr.
+      destruct (effect_beq e' x) eqn:E; auto. apply effect_beq_eq in E. congruence.
+Qed.
+
+(* ---------- one iteration of the optimised loop ---------- *)
+Definition set_parsable (l : list setting) : Prop := forall x, In x l -> parsable (stxt x) = true.
+Definition adds_parsable (t : fmts) : Prop := forall x, In x (all_adds t) -> parsable (stxt x) = true.
+
+Lemma set_parsable_texts l : set_parsable l -> Forall (fun t => parsable t = true) (map stxt l).
+Proof. intros H. apply Forall_forall. intros t Ht. apply in_map_iff in Ht as (x & <- & Hx). now apply H. Qed.
+Lemma set_parsable_wf l : set_parsable l -> set_wf l.
+Proof. intros H x Hx. apply parsable_wf. now apply H. Qed.
+Lemma adds_parsable_wf t : adds_parsable t -> adds_wf t.
+Proof. intros H x Hx. apply parsable_wf. now apply H. Qed.
+Lemma is_parsable_tbl_spec t : is_parsable_tbl t = true -> adds_parsable t.
+Proof. unfold is_parsable_tbl. intros H x Hx. rewrite forallb_forall in H. now apply H. Qed.
+
+Lemma join_nil l : Forall (fun t : str => t <> []) l -> join [SEMI] l = [] -> l = [].
+Proof.
+  intros H. destruct H as [|t l Ht Hl]; auto. destruct l as [|t' l'].
+  - cbn [join]. intros; congruence.
+  - change (join [SEMI] (t :: t' :: l')) with (t ++ SEMI :: join [SEMI] (t' :: l')).
+    destruct t; discriminate.
+Qed.
+
+Lemma s2d_of_set l : set_parsable l ->
+  teq (as_t (s2d (fun x => x) (map stxt l) [])) (sty l)
+  /\ nodupk (s2d (fun x => x) (map stxt l) []) /\ entries_ok (s2d (fun x => x) (map stxt l) []).
+Proof. intros H. apply s2d_style. now apply set_parsable_texts. Qed.
+
+(* what the optimiser emits (or omits) moves the terminal to the style of the new active list *)
+Lemma opt_pick_sound t1 act p : set_parsable act -> set_parsable (padd p) -> teq_disp t1 (sty act) ->
+  let cur := step act p in
+  let ac := opt_pick (s2d (fun x => x) (map stxt act) []) (s2d (fun x => x) (map stxt cur) []) (pt_codes p cur) in
+  teq_disp (if fst ac then sgr_move t1 (snd ac) else t1) (sty cur) /\ exists P, params_of (snd ac) = Some P.
+Proof.
+  intros Ha Hp Ht cur.
+  assert (Hc : set_parsable cur). { intros x Hx. apply in_step in Hx as [Hx|Hx]; auto. }
+  destruct (s2d_of_set act Ha) as (Hold & _ & _).
+  destruct (s2d_of_set cur Hc) as (Hnew & Hnd & Hne).
+  set (old := s2d (fun x => x) (map stxt act) []) in *.
+  set (new := s2d (fun x => x) (map stxt cur) []) in *.
+  pose proof (diff_sound old new Hnd Hne) as Hdiff.
+  destruct (acts_of_txt_acts _ _ (diff_txt_acts old new Hne)) as (_ & Hpar & Hnn).
+  pose proof (pt_codes_params p cur (set_parsable_wf _ Hc)) as Hcodes.
+  assert (Hfull : teq_disp (sgr_move t1 (pt_codes p cur)) (sty cur)).
+  { apply (pt_codes_style_R teq_disp teq_disp_rel_ok); auto using set_parsable_wf. }
+  assert (Ht_old : teq_disp t1 (as_t old)).
+  { eapply teq_disp_trans; [exact Ht|]. apply teq_teq_disp, teq_sym, Hold. }
+  unfold opt_pick. cbv zeta. set (o := join [SEMI] (diff_codes old new)).
+  destruct (is_nil o) eqn:En.
+  - cbn [fst snd]. split; [|eauto].
+    assert (Hd : diff_codes old new = []). { apply join_nil; auto. fold o. destruct o; [reflexivity|discriminate]. }
+    rewrite Hd in Hdiff. change (sgr spec_class (as_t old) (codes_of_texts [])) with (as_t old) in Hdiff.
+    eapply teq_disp_trans; [exact Ht_old|]. eapply teq_disp_trans; [exact Hdiff|]. now apply teq_teq_disp.
+  - assert (Hdn : diff_codes old new <> []). { intros Hd. unfold o in En. rewrite Hd in En. discriminate. }
+    assert (Ho : params_of o = Some (codes_of_texts (diff_codes old new))) by (apply params_of_join; auto).
+    destruct (length o <? length (pt_codes p cur)); cbn [fst snd]; [|split; eauto].
+    split; [|eauto]. unfold sgr_move. rewrite Ho.
+    eapply teq_disp_trans; [apply sgr_teq_disp; exact Ht_old|].
+    eapply teq_disp_trans; [exact Hdiff|]. now apply teq_teq_disp.
+Qed.
+
+Lemma rs_wrap_move t ac P : params_of (snd ac) = Some P ->
+  fst (rs_wrap 0 true ac) = true
+  /\ sgr_move t (snd (rs_wrap 0 true ac)) = (if fst ac then sgr_move tdefault (snd ac) else tdefault).
+Proof.
+  destruct ac as [ap c]. cbn [fst snd]. intros HP. unfold rs_wrap. cbn [Nat.eqb andb fst snd].
+  destruct ap; cbn [andb]; [|split; reflexivity].
+  destruct c as [|c0 c]; cbn [is_nil negb fst snd]; [split; reflexivity|]. split; [reflexivity|].
+  unfold sgr_move. rewrite HP.
+  rewrite (params_of_zero_prefix (c0 :: c) P HP : params_of (CH_0 :: SEMI :: c0 :: c) = Some (0%N :: P)).
+  apply sgr_reset.
+Qed.
+
+Lemma Inv_point_opt s tb t0 rs : ssorted tb -> adds_parsable tb -> (rs = false -> t0 = tdefault) ->
+  forall done k p rest st, tb = done ++ (k, p) :: rest -> k < length s ->
+  Inv teq_disp s tb t0 true done ((k, p) :: rest) st ->
+  Inv teq_disp s tb t0 true (done ++ [(k, p)]) rest (render_point s true rs st k p (step (trun [] done) p)).
+Proof.
+  intros Hsorted Hpars Ht0 done k p rest st E Hk HI.
+  assert (Hact : set_parsable (trun [] done)).
+  { intros x Hx. apply in_trun in Hx as [[]|Hx]. apply Hpars. rewrite E, all_adds_app. apply in_or_app. now left. }
+  assert (Hpadd : set_parsable (padd p)).
+  { intros x Hx. apply Hpars. rewrite E, all_adds_app. apply in_or_app. right.
+    unfold all_adds. cbn [flat_map snd]. apply in_or_app. now left. }
+  assert (Hdict : r_dict st = s2d (fun x => x) (map stxt (trun [] done)) []).
+  { destruct HI as (? & ? & _ & _ & _ & _ & _ & _ & _ & _ & Hd). now apply Hd. }
+  set (act := trun [] done) in *. set (cur := step act p).
+  set (ac0 := opt_pick (r_dict st) (s2d (fun x => x) (map stxt cur) []) (pt_codes p cur)).
+  apply (Inv_step teq_disp teq_disp_rel_ok s tb t0 rs true Hsorted Ht0 done k p rest st
+                  (render_point s true rs st k p cur)
+                  (if fst (rs_wrap k rs ac0) then [OSgr (snd (rs_wrap k rs ac0))] else []) E Hk HI);
+    try (rewrite render_point_opt; cbv zeta; cbn [r_out r_last r_first r_exist r_dict]; reflexivity).
+  intros t1 Ht1. unfold ac0. rewrite Hdict.
+  destruct (Nat.eqb k 0 && rs) eqn:Ec.
+  - apply andb_true_iff in Ec as [Ek Er]. apply Nat.eqb_eq in Ek. subst k. rewrite Er.
+    assert (Hd0 : done = []).
+    { destruct done as [|kp0 d0]; auto. exfalso.
+      assert (Hs' : ssorted ((kp0 :: d0) ++ (0, p) :: rest)) by (rewrite <- E; exact Hsorted).
+      pose proof (ssorted_app_lt _ _ Hs' kp0 (0, p) (or_introl eq_refl) (or_introl eq_refl)) as Hlt.
+      cbn [fst] in Hlt. lia. }
+    assert (Hact0 : act = []) by (unfold act; now rewrite Hd0). 
+    assert (Ht00 : teq_disp tdefault (sty act)) by (rewrite Hact0; apply teq_disp_refl).
+    destruct (opt_pick_sound tdefault act p Hact Hpadd Ht00) as (Hsound & P & HP). fold cur in Hsound, HP.
+    destruct (rs_wrap_move t1 _ P HP) as (Hfst & Hmove).
+    rewrite Hfst. eexists. split; [reflexivity|]. rewrite Hmove.
+    destruct (fst _); exact Hsound.
+  - unfold rs_wrap. rewrite Ec. destruct Ht1 as [Ht1|[Hk0 Hr]].
+    2:{ subst k. rewrite Hr in Ec. discriminate. }
+    destruct (opt_pick_sound t1 act p Hact Hpadd Ht1) as (Hsound & _). fold cur in Hsound.
+    destruct (fst _); eexists; (split; [reflexivity|exact Hsound]).
+Qed.
+
+Theorem render_opt_display_strong : forall s rs re t0,
+  ssorted (tbl s) -> adds_wf (tbl s) -> (rs = false -> t0 = tdefault) ->
+  exists disp tfin,
+    tok_run t0 (to_str_toks s true rs re) = (disp, tfin)
+    /\ map fst disp = base s
+    /\ (forall i, i < length (base s) -> exists st, nth_error (map snd disp) i = Some st /\
+          teq_disp st (style_of (map stxt (active_at (tbl s) i))))
+    /\ (re = true -> teq_disp tfin tdefault).
+Proof.
+  intros s rs re t0 Hs Hwf Ht0.
+  destruct (is_parsable_tbl (tbl s)) eqn:Ep.
+  - unfold to_str_toks. destruct (is_nil (tbl s) && negb rs) eqn:E0.
+    + apply andb_true_iff in E0 as [En Er]. apply negb_true_iff in Er.
+      destruct (tbl s) as [|kp tb'] eqn:Etb; [|discriminate].
+      rewrite (Ht0 Er).
+      destruct (display_early teq_disp teq_disp_rel_ok (base s) tdefault) as (disp & tfin & H1 & H2 & H3 & H4).
+      exists disp, tfin. repeat split; auto.
+    + rewrite Ep. cbn [andb].
+      exact (display_generic teq_disp teq_disp_rel_ok (base s) (tbl s) t0 rs true Hs Ht0
+               (Inv_point_opt (base s) (tbl s) t0 rs Hs (is_parsable_tbl_spec _ Ep) Ht0) re).
+  - (* not parsable: the optimiser is switched off *)
+    assert (Heq : to_str_toks s true rs re = to_str_toks s false rs re).
+    { unfold to_str_toks. rewrite Ep. reflexivity. }
+    rewrite Heq.
+    destruct (render_unopt_display_strong s rs re t0 Hs Hwf Ht0) as (disp & tfin & H1 & H2 & H3 & H4).
+    exists disp, tfin. repeat split; auto.
+    + intros i Hi. destruct (H3 i Hi) as (st & Hn & Hst). exists st. split; auto. now apply teq_teq_disp.
+    + intros Hre. now apply teq_teq_disp, H4.
+Qed.
+
+Theorem render_opt_display : forall s rs re t0,
+  ssorted (tbl s) -> keys_le (tbl s) (length (base s)) -> no_esc (base s) = true ->
+  adds_wf (tbl s) -> strict_ok (tbl s) = true -> (rs = false -> t0 = tdefault) ->
+  let '(disp, tfin) := tok_run t0 (to_str_toks s true rs re) in
+     map fst disp = base s
+  /\ (forall i, i < length (base s) -> exists st, nth_error (map snd disp) i = Some st /\
+        teq_disp st (style_of (map stxt (active_at (tbl s) i))))
+  /\ (re = true -> (exists c, In (OSgr c) (to_str_toks s true rs re)) -> teq_disp tfin tdefault).
+Proof.
+  intros s rs re t0 Hs _ _ Hwf _ Ht0.
+  destruct (render_opt_display_strong s rs re t0 Hs Hwf Ht0) as (disp & tfin & -> & H1 & H2 & H3).
+  repeat split; auto.
+Qed.
+
+(* optimised and unoptimised output display the same *)
+Lemma Forall2_nth {A B} (P : A -> B -> Prop) : forall l1 l2, length l1 = length l2 ->
+  (forall i a b, nth_error l1 i = Some a -> nth_error l2 i = Some b -> P a b) -> Forall2 P l1 l2.
+Proof.
+  induction l1 as [|a l1 IH]; intros [|b l2] Hl H; try discriminate; constructor.
+  - exact (H 0 a b eq_refl eq_refl).
+  - apply IH; [simpl in Hl; lia|]. intros i x y Hx Hy. exact (H (S i) x y Hx Hy).
+Qed.
+
+Theorem render_opt_equiv : forall s rs re t0,
+  ssorted (tbl s) -> adds_wf (tbl s) -> (rs = false -> t0 = tdefault) ->
+  exists d1 f1 d2 f2,
+    tok_run t0 (to_str_toks s true rs re) = (d1, f1)
+    /\ tok_run t0 (to_str_toks s false rs re) = (d2, f2)
+    /\ map fst d1 = map fst d2
+    /\ Forall2 teq_disp (map snd d1) (map snd d2)
+    /\ (re = true -> teq_disp f1 f2).
+Proof.
+  intros s rs re t0 Hs Hwf Ht0.
+  destruct (render_opt_display_strong s rs re t0 Hs Hwf Ht0) as (d1 & f1 & A1 & A2 & A3 & A4).
+  destruct (render_unopt_display_strong s rs re t0 Hs Hwf Ht0) as (d2 & f2 & B1 & B2 & B3 & B4).
+  exists d1, f1, d2, f2. split; [exact A1|]. split; [exact B1|]. split; [congruence|]. split.
+  - assert (L1 : length d1 = length (base s)) by (rewrite <- A2; now rewrite map_length).
+    assert (L2 : length d2 = length (base s)) by (rewrite <- B2; now rewrite map_length).
+    apply Forall2_nth. { rewrite !map_length. congruence. }
+    intros i a b Ha Hb.
+    assert (Hi : i < length (base s)).
+    { rewrite <- L1, <- (map_length snd). apply nth_error_Some. congruence. }
+    destruct (A3 i Hi) as (x & Hx & Hxs). destruct (B3 i Hi) as (y & Hy & Hys).
+    rewrite Ha in Hx. rewrite Hb in Hy. inversion Hx; inversion Hy; subst.
+    eapply teq_disp_trans; [exact Hxs|]. apply teq_disp_sym. now apply teq_teq_disp.
+  - intros Hre. eapply teq_disp_trans; [now apply A4|]. apply teq_disp_sym, teq_teq_disp. now apply B4.
+Qed.
+
+
+(* ---------- well-formed tokens and the byte level, optimised renderer ---------- *)
+Lemma opt_pick_nonfinal old cur p : set_parsable cur ->
+  nonfinal (snd (opt_pick old (s2d (fun x => x) (map stxt cur) []) (pt_codes p cur))) = true.
+Proof.
+  intros Hc. destruct (s2d_of_set cur Hc) as (_ & _ & Hne).
+  destruct (acts_of_txt_acts _ _ (diff_txt_acts old _ Hne)) as (_ & Hpar & _).
+  assert (Hfull : nonfinal (pt_codes p cur) = true).
+  { apply nonfinal_pt_codes. intros x Hx. apply wf_nonfinal, parsable_wf. now apply Hc. }
+  assert (Hdiff : nonfinal (join [SEMI] (diff_codes old (s2d (fun x => x) (map stxt cur) []))) = true).
+  { apply nonfinal_join. eapply Forall_impl; [|exact Hpar]. cbv beta. intros t Ht.
+    destruct (params_of t) as [P|] eqn:E; [|congruence]. apply dsc_nonfinal. exact (params_of_chars t P E). }
+  unfold opt_pick. cbv zeta. destruct (is_nil _); [exact Hfull|]. destruct (_ <? _); assumption.
+Qed.
+
+Lemma rs_wrap_nonfinal k rs ac : nonfinal (snd ac) = true -> nonfinal (snd (rs_wrap k rs ac)) = true.
+Proof.
+  intros H. unfold rs_wrap. destruct (Nat.eqb k 0 && rs); auto.
+  destruct (fst ac && negb (is_nil (snd ac))); cbn [snd]; auto.
+Qed.
+
+Lemma render_point_opt_toks s rs st idx p cur : no_esc s = true -> set_parsable cur ->
+  Forall tok_ok (r_out st) -> Forall tok_ok (r_out (render_point s true rs st idx p cur)).
+Proof.
+  intros Hs Hc Ho. rewrite render_point_opt. cbv zeta. cbn [r_out].
+  apply Forall_app. split; auto. apply Forall_app. split.
+  { destruct (r_first st && (0 <? idx) && rs); repeat constructor. }
+  apply Forall_app. split. { apply tok_ok_opt_text. now apply no_esc_slice. }
+  destruct (fst _); [|constructor]. repeat constructor. cbn [tok_ok].
+  now apply rs_wrap_nonfinal, opt_pick_nonfinal.
+Qed.
+
+Theorem to_str_toks_ok s opt rs re : no_esc (base s) = true -> adds_wf (tbl s) ->
+  Forall tok_ok (to_str_toks s opt rs re).
+Proof.
+  intros Hs Hwf.
+  assert (Hun : Forall tok_ok (to_str_toks s false rs re)).
+  { apply to_str_toks_unopt_ok; auto. intros x Hx. apply wf_nonfinal. now apply Hwf. }
+  destruct opt; [|exact Hun]. destruct (is_parsable_tbl (tbl s)) eqn:Ep.
+  2:{ replace (to_str_toks s true rs re) with (to_str_toks s false rs re); [exact Hun|].
+      unfold to_str_toks. now rewrite Ep. }
+  unfold to_str_toks. rewrite Ep. destruct (is_nil (tbl s) && negb rs).
+  - now apply tok_ok_opt_text.
+  - cbn [andb]. apply Forall_app. split.
+    + apply (render_loop_toks _ _ _ set_parsable).
+      * intros; now apply render_point_opt_toks.
+      * intros idx p cur Hin x Hx. destruct (iter_states_in _ _ _ _ _ x Hin Hx) as [[]|H].
+        now apply (is_parsable_tbl_spec _ Ep).
+      * constructor.
+    + apply Forall_app. split. { destruct (_ && rs); repeat constructor. }
+      apply Forall_app. split. { apply tok_ok_opt_text. unfold no_esc. now apply forallb_skipn. }
+      destruct (_ && re); repeat constructor.
+Qed.
+
+Theorem render_opt_display_bytes : forall s rs re t0,
+  ssorted (tbl s) -> no_esc (base s) = true -> adds_wf (tbl s) -> (rs = false -> t0 = tdefault) ->
+  exists disp tfin,
+    term_run t0 (to_str s true rs re) = (disp, tfin)
+    /\ map fst disp = base s
+    /\ (forall i, i < length (base s) -> exists st, nth_error (map snd disp) i = Some st /\
+          teq_disp st (style_of (map stxt (active_at (tbl s) i))))
+    /\ (re = true -> teq_disp tfin tdefault).
+Proof.
+  intros s rs re t0 Hs He Hwf Ht0. unfold to_str. rewrite term_tok_bridge.
+  - now apply render_opt_display_strong.
+  - now apply to_str_toks_ok.
+Qed.
+
+(* str(s) / format(s) : render = to_str with optimize, no reset_start, reset_end *)
+Corollary render_display : forall s,
+  ssorted (tbl s) -> no_esc (base s) = true -> adds_wf (tbl s) ->
+  exists disp tfin,
+    term_run tdefault (render s) = (disp, tfin)
+    /\ map fst disp = base s
+    /\ (forall i, i < length (base s) -> exists st, nth_error (map snd disp) i = Some st /\
+          teq_disp st (style_of (map stxt (active_at (tbl s) i))))
+    /\ teq_disp tfin tdefault.
+Proof.
+  intros s Hs He Hwf.
+  destruct (render_opt_display_bytes s false true tdefault Hs He Hwf (fun _ => eq_refl))
+    as (disp & tfin & H1 & H2 & H3 & H4).
+  exists disp, tfin. repeat split; auto.
+Qed.
+
+(* reset_start, any renderer variant: the output begins with a reset *)
+Theorem render_starts_reset s opt re : adds_wf (tbl s) ->
+  exists codes r p, to_str_toks s opt true re = OSgr codes :: r /\ params_of codes = Some (0%N :: p).
+Proof.
+  intros Hwf. pose proof (render_unopt_starts_reset s re Hwf) as Hun.
+  destruct opt; [|exact Hun]. destruct (is_parsable_tbl (tbl s)) eqn:Ep.
+  2:{ replace (to_str_toks s true true re) with (to_str_toks s false true re); [exact Hun|].
+      unfold to_str_toks. now rewrite Ep. }
+  clear Hun. pose proof (is_parsable_tbl_spec _ Ep) as Hpars.
+  unfold to_str_toks. rewrite Ep, andb_false_r. cbn [andb].
+  set (init := {| r_out := []; r_last := 0; r_dict := []; r_exist := false; r_first := true |}).
+  assert (Hbrk : exists codes r p,
+    r_out init ++ (if r_first init && true then [OSgr []] else []) ++
+    (if is_nil (skipn (r_last init) (base s)) then [] else [OText (skipn (r_last init) (base s))]) ++
+    (if r_exist init && re then [OSgr []] else []) = OSgr codes :: r /\ params_of codes = Some (0%N :: p)).
+  { cbn [init r_out r_first r_last r_exist andb app]. exists []. eexists. exists []. split; reflexivity. }
+  destruct (tbl s) as [|[k p] t] eqn:Et.
+  - cbn [iter_states render_loop]. exact Hbrk.
+  - cbn [iter_states render_loop]. destruct (length (base s) <=? k); [exact Hbrk|].
+    match goal with |- context [render_loop ?a ?b ?c ?d ?e] => destruct (render_loop_prefix a b c d e) as [ext ->] end.
+    rewrite render_point_opt. cbv zeta. cbn [r_out r_first r_last r_dict init andb app].
+    destruct k as [|k'].
+    + change (0 <? 0) with false. cbn [andb app].
+      replace (str_slice (base s) 0 0) with (@nil char) by (unfold str_slice; reflexivity). cbn [is_nil app].
+      assert (Hp : set_parsable (padd p)).
+      { intros x Hx. apply Hpars. unfold all_adds. cbn [flat_map snd]. apply in_or_app. now left. }
+      assert (Hnil : set_parsable []) by (intros x []).
+      destruct (opt_pick_sound tdefault [] p Hnil Hp (teq_disp_refl _)) as (_ & P & HP).
+      change (s2d (fun x : str => x) (map stxt []) []) with (@nil (effect * str)) in HP.
+      set (ac := opt_pick [] _ _) in *.
+      unfold rs_wrap. cbn [Nat.eqb andb]. destruct ac as [ap c]. cbn [fst snd] in *.
+      destruct (ap && negb (is_nil c)) eqn:Ea; cbn [fst snd app].
+      * eexists. eexists. eexists. split; [reflexivity|]. exact (params_of_zero_prefix _ _ HP).
+      * exists [CH_0]. eexists. exists []. split; reflexivity.
+    + change (0 <? S k') with true. cbn [andb app]. exists []. eexists. exists []. split; reflexivity.
+Qed.
+
+(* the hypothesis on the setting texts is needed: a non-numeric text (here "4:3") makes the
+   specification terminal ignore the whole joined sequence, so "1" is lost with it *)
+Definition ex_bad : astr := mkA [65]%N [(0, mkP [mkS 1 [49]%N; mkS 2 [52; 58; 51]%N] [])].
+Example wf_hypothesis_needed :
+  wf_setting [52; 58; 51]%N = false
+  /\ to_str_toks ex_bad false false true = [OSgr [49; 59; 52; 58; 51]%N; OText [65]%N; OSgr []]
+  /\ (exists st, nth_error (map snd (fst (tok_run tdefault (to_str_toks ex_bad false false true)))) 0 = Some st
+                 /\ st BOLDNESS = None
+                 /\ style_of (map stxt (active_at (tbl ex_bad) 0)) BOLDNESS = Some [1%N]).
+Proof.
+  split; [reflexivity|]. split; [vm_compute; reflexivity|].
+  eexists. split; [reflexivity|]. split; reflexivity.
+Qed.
+
+(* ---------- non-vacuity for the optimiser ---------- *)
+Definition ex_o : astr :=                                   (* "ABC": bold from 0, italic added at 1, bold off at 2 *)
+  mkA [65; 66; 67]%N
+      [(0, mkP [mkS 1 [49]%N] []);
+       (1, mkP [mkS 2 [51]%N] []);
+       (2, mkP [] [mkS 1 [49]%N])].
+
+Example ex_o_hyps :
+  ssorted (tbl ex_o) /\ no_esc (base ex_o) = true /\ adds_wf (tbl ex_o) /\ is_parsable_tbl (tbl ex_o) = true.
+Proof.
+  split.
+  { repeat constructor; cbn [In fst]; intros kp H;
+    repeat (destruct H as [<-|H]; [cbn [fst]; lia|]); destruct H. }
+  split; [reflexivity|]. split; [|reflexivity].
+  intros x H. cbn in H. repeat (destruct H as [<-|H]; [reflexivity|]). destruct H.
+Qed.
+
+(* the optimiser really takes the difference: "3" instead of "1;3", "22" instead of "0;3" *)
+Example ex_o_rendered :
+  to_str_toks ex_o true false true
+  = [OSgr [49]%N; OText [65]%N; OSgr [51]%N; OText [66]%N; OSgr [50; 50]%N; OText [67]%N; OSgr []]
+  /\ to_str_toks ex_o false false true
+  = [OSgr [49]%N; OText [65]%N; OSgr [49; 59; 51]%N; OText [66]%N; OSgr [48; 59; 51]%N; OText [67]%N; OSgr []]
+  /\ map (fun x => tstate_obs (snd x)) (fst (term_run tdefault (to_str ex_o true false true)))
+     = map (fun i => tstate_obs (style_of (map stxt (active_at (tbl ex_o) i)))) [0; 1; 2].
+Proof. repeat split; vm_compute; reflexivity. Qed.
+
+(* teq_disp (not teq) is what the optimiser achieves: clearing FONT_TYPE emits 10 *)
+Definition ex_f : astr :=
+  mkA [65; 66]%N [(0, mkP [mkS 1 [49; 49]%N; mkS 2 [49]%N] []); (1, mkP [] [mkS 1 [49; 49]%N])].
+Example ex_f_font :
+  to_str_toks ex_f true false true = [OSgr [49; 49; 59; 49]%N; OText [65]%N; OSgr [49; 48]%N; OText [66]%N; OSgr []]
+  /\ (exists st, nth_error (map snd (fst (tok_run tdefault (to_str_toks ex_f true false true)))) 1 = Some st
+                 /\ st FONT_TYPE = Some [10%N]
+                 /\ style_of (map stxt (active_at (tbl ex_f) 1)) FONT_TYPE = None).
+Proof. split; [vm_compute; reflexivity|]. eexists. split; [reflexivity|]. split; reflexivity. Qed.
+
 (* ==== FOOTER ==== *)
 Print Assumptions term_tok_bridge.
 Print Assumptions render_unopt_display_strong.
 Print Assumptions render_unopt_display.
 Print Assumptions render_unopt_display_bytes.
 Print Assumptions render_unopt_starts_reset.
+Print Assumptions clear_spec.
+Print Assumptions s2d_style.
+Print Assumptions diff_sound.
+Print Assumptions render_opt_display_strong.
+Print Assumptions render_opt_display.
+Print Assumptions render_opt_equiv.
+Print Assumptions to_str_toks_ok.
+Print Assumptions render_opt_display_bytes.
+Print Assumptions render_display.
+Print Assumptions render_starts_reset.
